@@ -1,3 +1,6 @@
+#[cfg(okane_verif)]
+#[allow(unused_imports)]
+use crate::verif::std;
 use std::{
     fmt::Display,
     ops::{Deref, Range},
